@@ -56,3 +56,114 @@ Proof.
   assert (I0 : minv mx st0) by (split; [constructor|cbn; lia]).
   destruct (meta_frags_inv mx frags st0 st I0 M) as [FA SZ]. repeat split; [exact FA|exact C|lia].
 Qed.
+
+(* ---------- refusals: only two classes ---------- *)
+Lemma meta_frags_err frags : forall st e, meta_frags st frags = Err e -> e = EConn ErrCodeProtocol.
+Proof.
+  induction frags as [|[len fs] frags IH]; intros st e H; [discriminate|].
+  cbn [meta_frags] in H. destruct ((2 * ms_remain st) mod 2 ^ 32 <? len); [inversion H; reflexivity|].
+  destruct (ms_invalid st); [inversion H; reflexivity|]. eapply IH. exact H.
+Qed.
+
+(* a refused header block is a connection PROTOCOL_ERROR (oversized fragment, or a CONTINUATION after
+   an invalid field) or a stream PROTOCOL_ERROR on the block's own stream (invalid field / pseudo-header
+   misuse seen by the end of the block); COMPRESSION_ERROR can only come from HPACK itself *)
+Theorem h2_meta_error_classes mx sid frags e : h2_meta mx sid frags = MErr e ->
+  e = EConn ErrCodeProtocol \/ e = EStream sid ErrCodeProtocol.
+Proof.
+  unfold h2_meta. destruct (meta_frags _ frags) as [st|e'] eqn:M.
+  - destruct (ms_invalid st); [intro H; inversion H; right; reflexivity|].
+    destruct (negb (check_pseudos (ms_fields st))); intro H; inversion H. right. reflexivity.
+  - intro H. inversion H; subst. left. eapply meta_frags_err. exact M.
+Qed.
+
+(* ---------- well-formed blocks within the limits are delivered whole ---------- *)
+(* no pseudo-header field after a regular one, relative to "a regular field was already seen" *)
+Fixpoint pseudo_first_from (reg : bool) (fs : list hfield) : Prop :=
+  match fs with
+  | [] => True
+  | f :: r => (is_pseudo (fst f) = true -> reg = false) /\ pseudo_first_from (reg || negb (is_pseudo (fst f))) r
+  end.
+Fixpoint regular_after (reg : bool) (fs : list hfield) : bool :=
+  match fs with [] => reg | f :: r => regular_after (reg || negb (is_pseudo (fst f))) r end.
+
+(* the clean state of the callback *)
+Definition clean (st : mstate) : Prop := ms_emit st = true /\ ms_invalid st = false /\ ms_trunc st = false.
+
+Lemma fold_emit_clean fs : forall st,
+  clean st -> Forall hfield_ok fs -> pseudo_first_from (ms_regular st) fs -> list_size fs <= ms_remain st ->
+  let st' := fold_left meta_emit fs st in
+  clean st' /\ ms_fields st' = ms_fields st ++ fs /\ ms_remain st' = ms_remain st - list_size fs /\
+  ms_regular st' = regular_after (ms_regular st) fs.
+Proof.
+  induction fs as [|f fs IH]; intros st C FA PF SZ; cbn [fold_left].
+  - cbn. rewrite app_nil_r. repeat split; try apply C. cbn [list_size fold_right]. lia.
+  - destruct C as (E & I & T). inversion FA as [|? ? [V N] FA']; subst. destruct PF as [P1 PF'].
+    cbn [list_size fold_right] in SZ. fold (list_size fs) in SZ.
+    assert (STEP : meta_emit st f =
+      {| ms_remain := ms_remain st - hf_size f; ms_regular := ms_regular st || negb (is_pseudo (fst f));
+         ms_invalid := false; ms_emit := true; ms_trunc := ms_trunc st; ms_fields := ms_fields st ++ [f] |}).
+    { unfold meta_emit. rewrite E, I, V. cbn [negb orb].
+      assert (X : (if is_pseudo (fst f) then ms_regular st else negb (valid_wire_name (fst f))) = false).
+      { destruct (is_pseudo (fst f)) eqn:P; [apply P1; reflexivity|]. destruct N as [N|N]; [discriminate|]. rewrite N. reflexivity. }
+      rewrite X. destruct (N.ltb_spec (ms_remain st) (hf_size f)); [lia|reflexivity]. }
+    rewrite STEP.
+    specialize (IH {| ms_remain := ms_remain st - hf_size f; ms_regular := ms_regular st || negb (is_pseudo (fst f));
+         ms_invalid := false; ms_emit := true; ms_trunc := ms_trunc st; ms_fields := ms_fields st ++ [f] |}).
+    cbn [ms_remain ms_regular ms_fields] in IH.
+    destruct IH as (C' & F' & R' & G'); [repeat split; assumption|exact FA'|exact PF'|lia|].
+    repeat split; try apply C'.
+    + rewrite F', <- app_assoc. reflexivity.
+    + rewrite R'. cbn [list_size fold_right]. fold (list_size fs). lia.
+    + rewrite G'. reflexivity.
+Qed.
+
+(* every fragment passes the size guard: its length is at most twice what is left of the limit when
+   it arrives (the guard is there to refuse blocks that "exceed the limit by too much") *)
+Fixpoint frag_lens_ok (remain : N) (frags : list (N * list hfield)) : Prop :=
+  match frags with
+  | [] => True
+  | (len, fs) :: r => len <= 2 * remain /\ frag_lens_ok (remain - list_size fs) r
+  end.
+
+Definition all_fields (frags : list (N * list hfield)) : list hfield := concat (map snd frags).
+
+Lemma meta_frags_clean frags : forall st,
+  clean st -> Forall hfield_ok (all_fields frags) -> pseudo_first_from (ms_regular st) (all_fields frags) ->
+  list_size (all_fields frags) <= ms_remain st -> ms_remain st < 2 ^ 31 -> frag_lens_ok (ms_remain st) frags ->
+  exists st', meta_frags st frags = Ok st' /\ clean st' /\ ms_fields st' = ms_fields st ++ all_fields frags.
+Proof.
+  induction frags as [|[len fs] frags IH]; intros st C FA PF SZ LT FL.
+  - exists st. cbn. rewrite app_nil_r. repeat split; apply C.
+  - unfold all_fields in *. cbn [map concat snd] in *. cbn [frag_lens_ok] in FL. destruct FL as [FL1 FL2].
+    apply Forall_app in FA. destruct FA as [FA1 FA2]. rewrite list_size_app in SZ.
+    assert (PFs : pseudo_first_from (ms_regular st) fs /\
+                  pseudo_first_from (regular_after (ms_regular st) fs) (concat (map snd frags))).
+    { clear - PF. revert PF. generalize (ms_regular st). induction fs as [|f fs IHf]; intros b PF; cbn [app pseudo_first_from regular_after] in *; [split; [trivial|exact PF]|].
+      destruct PF as [P1 P2]. destruct (IHf _ P2) as [A B]. repeat split; assumption. }
+    destruct PFs as [PF1 PF2].
+    destruct (fold_emit_clean fs st C FA1 PF1) as (C' & F' & R' & G'); [lia|].
+    cbn [meta_frags]. rewrite N.mod_small by (change (2 ^ 32) with 4294967296; change (2 ^ 31) with 2147483648 in LT; lia).
+    destruct (N.ltb_spec (2 * ms_remain st) len); [lia|]. destruct C as (E & I & T). rewrite I.
+    destruct (IH (fold_left meta_emit fs st)) as (st' & M & C'' & F''); try assumption.
+    + rewrite G'. exact PF2.
+    + rewrite R'. lia.
+    + rewrite R'. lia.
+    + rewrite R'. exact FL2.
+    + exists st'. repeat split; try apply C''; [exact M|]. rewrite F'', F', <- app_assoc. reflexivity.
+Qed.
+
+(* a header block whose fields are all valid, with the pseudo-header fields first and consistent, whose
+   list size is within MaxHeaderListSize (< 2^31) and whose fragments pass the size guard is delivered
+   complete and untruncated, however it is cut into HEADERS + CONTINUATION frames *)
+Theorem h2_meta_wellformed_delivered mx sid frags :
+  let fields := all_fields frags in
+  Forall hfield_ok fields -> pseudo_first_from false fields -> check_pseudos fields = true ->
+  list_size fields <= mx -> mx < 2 ^ 31 -> frag_lens_ok mx frags ->
+  h2_meta mx sid frags = MOk fields false.
+Proof.
+  cbv zeta. intros FA PF CP SZ LT FL. unfold h2_meta.
+  set (st0 := {| ms_remain := mx; ms_regular := false; ms_invalid := false; ms_emit := true; ms_trunc := false; ms_fields := [] |}).
+  destruct (meta_frags_clean frags st0) as (st' & M & (E & I & T) & F); try assumption; [repeat split|].
+  rewrite M, I, F. cbn [app ms_fields st0]. rewrite CP. cbn [negb]. rewrite T. reflexivity.
+Qed.
